@@ -168,6 +168,10 @@ class C12(BtProp):
             if Bl is not None and BX is not None and Bl[2:] != BX[3:]:
                 out.append(viol("snapshot-blackboard", "snapshot records (clients, keys) %s but the behaviours ticked this "
                                 "tick hold %s" % (Bl[2:], BX[3:])))
+            Hl = next((x[2:].split() for x in b["lines"] if x.startswith("H ") or x == "H"), None)
+            if Hl and any(int(x) != count for x in Hl):
+                # the tick count grows by one as the very last step: every handler of tick n sees n - 1 ticks done
+                out.append(viol("count-late", "handlers of tick %d saw tree.count %s" % (count + 1, Hl)))
             count += 1
             K = next((x for x in b["lines"] if x.startswith("K ")), None)
             if K is not None and int(K[2:]) != count:
